@@ -83,8 +83,12 @@ struct Shared {
     cv: Condvar,
     open: AtomicBool,
     release: AtomicBool,
+    /// second stage: handlers whose client is scripted to leave are released
+    /// later than the others, so that shutdown has to wait for them alone
+    release2: AtomicBool,
     close_called: AtomicBool,
     big: HashMap<u32, bool>,
+    orphan: HashMap<u32, bool>,
 }
 impl Shared {
     fn push(&self, e: Ev) {
@@ -177,7 +181,8 @@ struct IdPath {
 async fn slow(sh: Arc<Shared>, id: u32) -> Result<Response<Body>, HttpError> {
     let mut g = Guard { sh: sh.clone(), id, armed: true };
     sh.push(Ev::Entered(id));
-    while !sh.release.load(Ordering::SeqCst) {
+    let second = sh.orphan.get(&id).copied().unwrap_or(false);
+    while !(if second { &sh.release2 } else { &sh.release }).load(Ordering::SeqCst) {
         tokio::time::sleep(Duration::from_millis(10)).await;
     }
     g.armed = false;
@@ -242,6 +247,9 @@ struct Scenario {
     waiters: u32,
     /// how long the in-flight handlers hold shutdown open after close() was called
     hold_ms: u64,
+    /// request shutdown by dropping the `HttpServer` (CloseHandle::drop) and
+    /// awaiting a `wait_for_shutdown()` future, instead of `close().await`
+    via_drop: bool,
 }
 
 impl Scenario {
@@ -250,6 +258,7 @@ impl Scenario {
             "mode": if self.detached { "detached" } else { "cancel" },
             "waiters": self.waiters,
             "hold_ms": self.hold_ms,
+            "via_drop": self.via_drop,
             "conns": self.conns.iter().map(|(c, s)| {
                 let v = match s {
                     Script::IdleFresh => json!({"k": "idle"}),
@@ -294,6 +303,7 @@ impl Scenario {
             conns,
             waiters: v.get("waiters").and_then(|x| x.as_u64()).unwrap_or(0) as u32,
             hold_ms: v.get("hold_ms").and_then(|x| x.as_u64()).unwrap_or(200),
+            via_drop: v.get("via_drop").and_then(|x| x.as_bool()).unwrap_or(false),
         })
     }
 }
@@ -488,18 +498,23 @@ struct Outcome {
 
 fn run_scenario(sc: &Scenario) -> Outcome {
     let mut big = HashMap::new();
+    let mut orphan = HashMap::new();
     for (c, s) in &sc.conns {
-        if let Script::InFlight { big: b, .. } = s {
+        if let Script::InFlight { big: b, leave } = s {
             big.insert(*c, *b);
+            orphan.insert(*c, *leave != Leave::Stay);
         }
     }
+    let any_orphan = orphan.values().any(|b| *b);
     let sh = Arc::new(Shared {
         log: Mutex::new(vec![]),
         cv: Condvar::new(),
         open: AtomicBool::new(true),
         release: AtomicBool::new(false),
+        release2: AtomicBool::new(false),
         close_called: AtomicBool::new(false),
         big,
+        orphan,
     });
     let notes = Mutex::new(Vec::<String>::new());
     let runtime = rt();
@@ -551,16 +566,30 @@ fn run_scenario(sc: &Scenario) -> Outcome {
         }
         // close()
         let sh2 = sh.clone();
+        let via_drop = sc.via_drop;
         runtime.spawn(async move {
-            sh2.push(Ev::CloseCalled);
-            sh2.close_called.store(true, Ordering::SeqCst);
-            let r = server.close().await;
-            sh2.push(Ev::CloseReturned(r.is_ok()));
+            if via_drop {
+                let f = server.wait_for_shutdown();
+                sh2.push(Ev::CloseCalled);
+                sh2.close_called.store(true, Ordering::SeqCst);
+                drop(server);
+                let r = f.await;
+                sh2.push(Ev::CloseReturned(r.is_ok()));
+            } else {
+                sh2.push(Ev::CloseCalled);
+                sh2.close_called.store(true, Ordering::SeqCst);
+                let r = server.close().await;
+                sh2.push(Ev::CloseReturned(r.is_ok()));
+            }
         });
         // shutdown is held open by the in-flight handlers for a while
         sh.wait_flag(&sh.close_called, LONG);
         std::thread::sleep(Duration::from_millis(sc.hold_ms));
         sh.release.store(true, Ordering::SeqCst);
+        if any_orphan {
+            std::thread::sleep(Duration::from_millis(120));
+        }
+        sh.release2.store(true, Ordering::SeqCst);
         // close() returns, the waiters are released
         let w = sc.waiters as usize;
         let done = sh.wait_for(LONG, |l| {
@@ -601,6 +630,7 @@ fn line_for(sc: &Scenario, out: &Outcome, group: &'static str) -> Line {
         format!("mode:{}", if sc.detached { "detached" } else { "cancel" }),
         format!("conns:{}", sc.conns.len()),
         format!("waiters:{}", sc.waiters),
+        format!("via:{}", if sc.via_drop { "drop+wait_for_shutdown" } else { "close" }),
     ];
     let t = &out.trace;
     let pos = |e: Ev| t.iter().position(|x| *x == e);
@@ -676,6 +706,7 @@ fn fixed(detached: bool) -> Vec<Scenario> {
             conns: conns.into_iter().enumerate().map(|(i, s)| (i as u32 + 1, s)).collect(),
             waiters,
             hold_ms,
+            via_drop: false,
         });
     };
     let stay = |big| Script::InFlight { big, leave: Leave::Stay };
@@ -698,6 +729,16 @@ fn fixed(detached: bool) -> Vec<Scenario> {
     add(vec![Script::HalfBody { complete: false }], 2, 200);
     // a connection arriving during shutdown
     add(vec![stay(false), Script::Late], 1, 300);
+    drop(add);
+    // the same request made by dropping the server (CloseHandle::drop)
+    let n = v.len();
+    for i in [1usize, 5, 6, 9] {
+        if i < n {
+            let mut s = v[i].clone();
+            s.via_drop = true;
+            v.push(s);
+        }
+    }
     v
 }
 
@@ -727,7 +768,13 @@ fn mixed(rng: &mut Rng, detached: bool, k: usize) -> Scenario {
     if !conns.iter().any(|(_, s)| matches!(s, Script::InFlight { leave: Leave::Stay, .. })) {
         conns[0].1 = Script::InFlight { big: false, leave: Leave::Stay };
     }
-    Scenario { detached, conns, waiters: rng.below(4) as u32, hold_ms: 150 + rng.below(200) as u64 }
+    Scenario {
+        detached,
+        conns,
+        waiters: rng.below(4) as u32,
+        hold_ms: 150 + rng.below(200) as u64,
+        via_drop: rng.chance(1, 6),
+    }
 }
 
 fn generate(opts: &Opts) -> Vec<(&'static str, Scenario)> {
